@@ -32,9 +32,89 @@ from common import *
 CRATES = {"fuel_tx": "fuel-tx", "fuel_types": "fuel-types", "fuel_asm": "fuel-asm", "fuel_vm": "fuel-vm"}
 ROOTS = [("fuel_tx", "Transaction"), ("fuel_tx", "Receipt"), ("fuel_tx", "Input"), ("fuel_tx", "Output"),
          ("fuel_tx", "policies::Policies"), ("fuel_tx", "ConsensusParameters"), ("fuel_tx", "GasCosts")]
-# features the harness builds with: everything except these predicates, which are false
-CFG_FALSE_FEATURES = {"typescript"}
+# cfg predicates: `feature = ".."` is evaluated against the feature set the HARNESS builds each crate with
+# (harness/Cargo.toml requests + the crates' own [features] tables, resolved by `active_features`), `test` is false
 CFG_FALSE_IDENTS = {"test"}
+ACTIVE = {}          # crate -> set of active features
+CURRENT = [None]     # crate whose text is being parsed (attributes are evaluated while parsing)
+
+
+def toml_table(text, header):
+    m = re.search(r"^\[" + re.escape(header) + r"\]\s*$(.*?)(?=^\[|\Z)", text, re.S | re.M)
+    return m.group(1) if m else ""
+
+
+def toml_entries(table):
+    """`key = value` entries of a TOML table (values may span lines inside [] or {})"""
+    out, i = {}, 0
+    for m in re.finditer(r"^([A-Za-z0-9_\-]+)\s*=\s*", table, re.M):
+        j = m.end()
+        if table[j] in "[{":
+            e = match_close(table, j)
+            out[m.group(1)] = table[j:e + 1]
+        else:
+            out[m.group(1)] = table[j:table.index("\n", j) if "\n" in table[j:] else len(table)]
+    return out
+
+
+def active_features():
+    """feature unification as cargo does it for the harness build (only the four modelled crates)"""
+    byname = {d: c for c, d in CRATES.items()}
+    feats, deps = {}, {}
+    ws = read("Cargo.toml")
+    wsdeps = toml_entries(toml_table(ws, "workspace.dependencies"))
+    for c, d in CRATES.items():
+        t = read(os.path.join(d, "Cargo.toml"))
+        feats[c] = {k: re.findall(r'"([^"]*)"', v) for k, v in toml_entries(toml_table(t, "features")).items()}
+        deps[c] = {k: v for k, v in toml_entries(toml_table(t, "dependencies")).items() if k in byname}
+    with open(os.path.join(VERIF, "harness", "Cargo.toml"), encoding="utf-8") as f:
+        h = f.read()
+    active = {c: set() for c in CRATES}
+    work = []
+
+    def request(c, f):
+        if f not in active[c]:
+            if f != "default" and f not in feats[c]:
+                raise TranslateError(f"feature {f} requested of {CRATES[c]} does not exist")
+            active[c].add(f)
+            work.append((c, f))
+
+    def dep_request(entry, c, via_workspace):
+        fl = re.search(r"features\s*=\s*\[(.*?)\]", entry, re.S)
+        for f in re.findall(r'"([^"]*)"', fl.group(1)) if fl else []:
+            request(c, f)
+        nodef = re.search(r"default-features\s*=\s*false", entry)
+        if not nodef and via_workspace and re.search(r"workspace\s*=\s*true", entry):
+            nodef = re.search(r"default-features\s*=\s*false", wsdeps.get(CRATES[c], ""))
+        if not nodef:
+            request(c, "default")
+
+    hdeps = toml_entries(toml_table(h, "dependencies"))
+    for d, c in byname.items():
+        if d not in hdeps:
+            raise TranslateError(f"harness/Cargo.toml does not depend on {d}")
+        dep_request(hdeps[d], c, False)
+    seen_dep = set()
+    while work or len(seen_dep) < len(CRATES):
+        for c in CRATES:   # a crate that is built requests features of its dependencies
+            if c not in seen_dep:
+                seen_dep.add(c)
+                for d, entry in deps[c].items():
+                    dep_request(entry, byname[d], True)
+        if not work:
+            continue
+        c, f = work.pop()
+        for item in feats[c].get(f, []):
+            if item.startswith("dep:"):
+                continue
+            if "/" in item:
+                d, g = item.split("/")
+                d = d.rstrip("?")
+                if d in byname:
+                    request(byname[d], g)
+            elif item in feats[c]:
+                request(c, item)
+    return active
 
 # the `#[serde(...)]` attributes used in the repository and their effect on the BINARY shape
 SERDE_ATTRS = {
@@ -179,7 +259,7 @@ def cfg_eval(pred):
     pred = pred.strip()
     m = re.fullmatch(r'feature\s*=\s*"([^"]*)"', pred)
     if m:
-        return m.group(1) not in CFG_FALSE_FEATURES
+        return m.group(1) in ACTIVE[CURRENT[0]]
     if pred in CFG_FALSE_IDENTS:
         return False
     m = re.fullmatch(r"(not|all|any)\s*\((.*)\)", pred, re.S)
@@ -291,6 +371,7 @@ class Parser:
 
     def load_crate(self, crate):
         d = CRATES[crate]
+        CURRENT[0] = crate
         root = os.path.join(REPO, d, "src", "lib.rs")
         if not os.path.exists(root):
             raise TranslateError(f"{d}/src/lib.rs not found")
@@ -1238,6 +1319,7 @@ def install_macro_types(parser):
 
 # ------------------------------------------------------------------------------------------------ main
 def main():
+    ACTIVE.update(active_features())
     parser = Parser()
     for c in CRATES:
         parser.load_crate(c)
@@ -1270,6 +1352,7 @@ def main():
     L = ["/- GENERATED by tools/gen/serde_shapes.py from the serde derives / hand-written impls of fuel-tx, fuel-types,",
          "   fuel-asm, fuel-vm — do not edit.  One `Shape` per type reachable from the roots",
          "   " + ", ".join(roots) + ".",
+         "   cargo features of the harness build: " + "; ".join(f"{CRATES[c]}: {' '.join(sorted(ACTIVE[c]))}" for c in CRATES) + ".",
          "   #[serde(..)] attributes met: " + ", ".join(f"{k} x{v}" for k, v in sorted(sh.attr_uses.items())) + " -/",
          "import FuelVerif.Model.Serde",
          "import FuelVerif.Gen.Policies",
